@@ -350,8 +350,12 @@ fn equal_month(sn1: &SnapshotFile, sn2: &SnapshotFile) -> bool {
 ///
 /// Whether the week of the snapshots is equal
 fn equal_week(sn1: &SnapshotFile, sn2: &SnapshotFile) -> bool {
-    equal_year(sn1, sn2)
-        && sn1.time.clone().iso_week_date().week() == sn2.time.clone().iso_week_date().week()
+    // compare ISO week-based year and week: the days around new year belong to a week of the neighbouring year
+    let (week1, week2) = (
+        sn1.time.clone().iso_week_date(),
+        sn2.time.clone().iso_week_date(),
+    );
+    week1.year() == week2.year() && week1.week() == week2.week()
 }
 
 /// Evaluate the day of the given snapshots
@@ -393,7 +397,7 @@ fn equal_hour(sn1: &SnapshotFile, sn2: &SnapshotFile) -> bool {
 ///
 /// Whether the minutes of the snapshots are equal
 fn equal_minute(sn1: &SnapshotFile, sn2: &SnapshotFile) -> bool {
-    equal_half_year(sn1, sn2) && sn1.time.minute() == sn2.time.minute()
+    equal_hour(sn1, sn2) && sn1.time.minute() == sn2.time.minute()
 }
 
 impl KeepOptions {
